@@ -366,6 +366,44 @@ def gen_focus(tier, rng):
             T.append((fname, [subj, n(-5), b], "sweep-huge"))
             T.append((fname, [subj, b, n(1)], "sweep-huge"))
         T.append((fname, [subj, n(-5), n(1)], "sweep-huge"))
+    # ---- the same sweeps over seeded random subjects
+    alphabet = ["a", "b", "c", " ", "Z", "0", "é", "ß", "中", "字", "\U0001F600", "\U0001F40E", "\U00010348"]
+    elems = [n(1), n(2), n(3), n("1.0"), None, "a", "b", True, [n(1)], [], Ctx([("a", n(1))])]
+    n_random = 12 if tier == "quick" else 350
+    random_strings = ["".join(rng.choice(alphabet) for _ in range(rng.randint(0, 8))) for _ in range(n_random)]
+    random_lists = [[rng.choice(elems) for _ in range(rng.randint(0, 8))] for _ in range(n_random)]
+    for fname, subjects in (("substring", random_strings), ("sublist", random_lists)):
+        for s in subjects:
+            L = len(s)
+            for st in range(-(L + 2), L + 3):
+                T.append((fname, [s, n(st)], "random-sweep"))
+                for ln in range(-1, L + 3):
+                    T.append((fname, [s, n(st), n(ln)], "random-sweep"))
+    for lst in random_lists:
+        for p in range(-(len(lst) + 2), len(lst) + 3):
+            T.append(("remove", [lst, n(p)], "random-sweep"))
+            T.append(("insert before", [lst, n(p), rng.choice(elems)], "random-sweep"))
+        for e in elems:
+            T.append(("index of", [lst, e], "random-sweep"))
+            T.append(("list contains", [lst, e], "random-sweep"))
+        T.append(("distinct values", [lst], "random-sweep"))
+        T.append(("reverse", [lst], "random-sweep"))
+        T.append(("flatten", [lst], "random-sweep"))
+        T.append(("count", [lst], "random-sweep"))
+        other = rng.choice(random_lists)
+        T.append(("union", [lst, other], "random-sweep"))
+        T.append(("concatenate", [lst, other], "random-sweep"))
+        T.append(("append", [lst, rng.choice(elems), rng.choice(elems)], "random-sweep"))
+    for s in random_strings:
+        T.append(("string length", [s], "random-sweep"))
+        for _ in range(6):
+            if s and rng.random() < 0.7:
+                i = rng.randrange(len(s))
+                m = s[i : i + rng.randint(0, 3)]
+            else:
+                m = "".join(rng.choice(alphabet) for _ in range(rng.randint(0, 2)))
+            for fname in ("contains", "starts with", "ends with", "substring before", "substring after"):
+                T.append((fname, [s, m], "random-sweep"))
     # ---- insert before / remove
     for lst in POS_LISTS:
         for p in _position_values(len(lst)) + [D("18446744073709551616"), D("-9223372036854775809")]:
@@ -639,6 +677,10 @@ def run(rep, tier, seed):
         "string(number) is accepted when it is a plain numeric literal denoting exactly the number; string() of lists, contexts, temporal values is undecided",
         "values are bound to scope names programmatically; named invocations use the parameter names of DMN 1.3 tables 72-76 (= named.rs, except `list contains`, see IMPL_PARAM_NAMES)",
     ]
+    bad = rbif.selftest()
+    if bad:
+        raise runner.Inconclusive("R-BIF does not reproduce the examples of DMN 1.3 tables 72-76: %s" % "; ".join(bad[:5]))
+    rep.extra["specification_examples_reproduced_by_reference"] = len(rbif.SPEC_EXAMPLES)
     rng = rng_for(seed, "c08")
     acc = Acc()
     base = 0
